@@ -24,6 +24,43 @@ Every case runs the REAL slimta code against a peer that stops cooperating at on
            has_reply_waiting() saw the fragment (an observer wrapped around the client's _check_server_timeout
            notes that); if a later read got it: 'stall-stage-not-reached', re-run, never a verdict.
 
+Audit strata (send side, other blocking points, which timeout governs):
+  write    a client that does not READ: Server on a socketpair whose server end has a 4 KB SO_SNDBUF (and over TLS,
+           and SmtpEdge behind a real loopback TCP listener with small buffers); the harness pipelines NOOPs in one
+           segment and never reads, so the flush of a reply blocks in send(); calibrated variants make the blocked
+           write the 421 after a command timeout, the 354 to DATA, the 250 after end-of-data.  Where the session is
+           parked (IO.raw_send / IO.raw_recv) is read off its greenlet frame.  Only 'the session ends' is demanded
+           (a 421 cannot be delivered).  Control: a reader that is merely slow (T/2) gets its 221.
+  proxy    OBSERVED, NOT JUDGED (counters unjudged/edge-proxy/<version>/<pattern>/<outcome>): (ProxyProtocolV1 | V2 |
+           ProxyProtocol, SmtpEdge)(command_timeout=T).handle() whose PROXY header never comes / stops half-way /
+           trickles.  The header is read before any SMTP session exists and no configured timeout is documented to
+           govern it, so the property (server *session*, relay attempts) demands nothing here.  Judged control: header
+           in two halves T/2 apart, then EHLO, must succeed.
+  wsgi     OBSERVED, NOT JUDGED (unjudged/edge-wsgi/...): WsgiEdge behind its gevent.pywsgi server, request headers
+           with a Content-Length whose body never arrives; WsgiEdge takes no timeout argument.
+  relay    next hop that stops reading the message after 354 (300 KB through a 4 KB SO_SNDBUF socketpair; thorough
+           also 4 MB through default buffers): the client is seen blocked in IO.raw_send before the chain starts;
+           EHLO -> 500 -> HELO stalled; every recipient refused yet DATA answered 354 (end of the empty message
+           stalled); LMTP RSET after a per-recipient failure; idle_timeout=T itself (client gone after idle T plus a
+           QUIT that is or is not answered; HTTP: idle connection closed).
+  split    'which timeout governs': only the timeout documented for the stalled step is T, the others are 1000 s
+           (relay: connect -> connect_timeout; command replies, STARTTLS handshake, AUTH -> command_timeout;
+           message send and end-of-data reply -> data_timeout; banner and immediate-TLS handshake: connect and
+           command both T, the documentation does not say; server: DATA phase -> data_timeout, else command_timeout).
+  http     request body (6 MB) to a server that never reads; connect() that never completes (accept queue full,
+           SYNs dropped); https: server never handshakes / handshakes, reads the request, then goes deaf.  After
+           every judged attempt the client greenlet (pool_size=1: the only pool slot) must be gone too.
+  pipe     stub that reads the message, exits 0 at once, and leaves a grandchild holding its stdout / stderr.
+  mx-dns   MxSmtpRelay whose MX query is never answered, through a c-ares-like stub channel (DNSResolver.channel)
+           with its own timeout: slimta's DNSResolver._wait_channel has to drive timeout() -> process_fd().  The
+           relay's three timeouts do not govern this step; the resolver's does (real clock: the harness polls on
+           for up to 5 s after the chain before saying 'blocked').  Control: answer after half the resolver timeout.
+
+Load.  Durations are scaled, verdicts are not: a batch starts with all durations x1 / x2 / x4 depending on runnable
+tasks per core (os.getloadavg), every case that did not get to its stall point ('stall-stage-not-reached': a bounded
+step BEFORE it expired, or a harness socket call failed because the session was already gone) is re-run up to 4
+times with durations doubled again each time and in ever smaller groups; only then inconclusive.
+
 Verdict "still blocked" -- why it is not a wall-clock verdict.  slimta's gevent Timeouts and the harness'
 sleeps are timers of the same single-threaded libev hub; libev fires timers in deadline order and gevent
 switches into the target greenlet from the timer callback.  The harness starts waiting only once the stall
@@ -74,10 +111,14 @@ import slimta.relay.smtp.client as _rclient_mod
 import slimta.relay.smtp.lmtpclient as _lclient_mod
 import slimta.relay.pipe as _pipe_mod
 import slimta.edge.smtp as _edge_mod
+import slimta.util.proxyproto as _pp_mod
+import slimta.util.dns as _dns_mod
+import pycares.errno as _cares_errno
 from slimta.smtp.server import Server
 from slimta.edge.smtp import SmtpEdge
 from slimta.relay import TransientRelayError
 from slimta.relay.smtp.static import StaticSmtpRelay, StaticLmtpRelay
+from slimta.relay.smtp.mx import MxSmtpRelay
 from slimta.relay.pipe import PipeRelay, MaildropRelay, DovecotLdaRelay
 from slimta.relay.http import HttpRelay
 from slimta.envelope import Envelope
@@ -85,9 +126,12 @@ from slimta.envelope import Envelope
 PROPERTY = 'C14'
 LEVEL = 'fault_enumeration'
 LEVEL_TEXT = ('Designed enumeration of stall points x stall patterns (silent, unfinished line, byte trickle, line '
-              'trickle, half a TLS record) on the real Server / SmtpEdge (socketpair, real TLS), the real '
-              'StaticSmtpRelay / StaticLmtpRelay (13 stages x PIPELINING on/off x 1-2 recipients, scripted next '
-              'hop), PipeRelay family (never-ending child) and HttpRelay (loopback server that never answers), '
+              'trickle, half a TLS record, peer that stops READING with real kernel buffers) on the real Server / '
+              'SmtpEdge (socketpair, real TLS, loopback TCP), PROXY-protocol edges, the real '
+              'StaticSmtpRelay / StaticLmtpRelay (18 stages x PIPELINING on/off x 1-2 recipients, scripted next '
+              'hop; once with all three timeouts T, once with only the governing one), MxSmtpRelay with a resolver '
+              'that never answers, PipeRelay family (never-ending child, grandchild holding the pipes) and HttpRelay '
+              '(http and https loopback server that never accepts / reads / answers / says goodbye), '
               'for T in {0.05, 0.1[, 0.2]} s; thorough adds double stalls (second attempt on a new or re-used '
               'connection).  Held = every enumerated stall ended within the K*T timer chain; not a proof for '
               'stall points that are not enumerated (custom handlers, other extensions).')
@@ -113,15 +157,23 @@ ASSUMPTIONS = ['timers of one libev hub fire in deadline order and gevent.sleep(
                'session ends" is demanded there',
                'bare Server cases: the harness closes the socket after Server.handle() returns (as an edge '
                'would); edge cases run SmtpEdge.handle() unmodified with PtrLookup stubbed',
-               'all three relay timeouts (connect, command, data) are configured to the same T, so the oracle '
-               'does not judge WHICH timeout bounds a step',
+               'base cases: all three relay timeouts (connect, command, data) are T; "split" cases: only the timeout '
+               'documented to govern the stalled step is T (banner / immediate-TLS handshake: connect and command), '
+               'the others 1000 s',
+               'send-side stalls: AF_UNIX / loopback TCP kernel buffers with SO_SNDBUF 4096; "blocked in send" is '
+               'read off the greenlet frame (IO.raw_send); the calibrated variants (421 / 354 / 250 write) rely on '
+               'per-write buffer accounting being the same for two sessions of one process, and report '
+               'stall-stage-not-reached otherwise',
+               'mx-dns: the stub channel implements c-ares\' contract (timeout() / process_fd() / getsock()) with the '
+               'real clock; pycares 5.0 itself cannot be driven by slimta (Channel.query signature)',
                'diagnostic only: the name `Timeout` in slimta.smtp.server, slimta.relay.smtp.client/lmtpclient, '
                'slimta.relay.pipe is bound to a recording subclass of gevent.Timeout (set VERIF_C14_NOTRACE=1 to '
                'run without it)']
 REQUIRED_HITS = ['http-reuse-judged', 'relay-reuse-judged', 'relay-probe-judged', 'server-stall-judged', 'server-421-checked', 'server-trickle-judged', 'edge-stall-judged',
                  'relay-stall-judged', 'relay-trickle-judged', 'relay-error-class-checked',
                  'relay-client-greenlet-checked', 'pipe-stall-judged', 'http-stall-judged',
-                 'control-succeeded']
+                 'control-succeeded', 'server-write-stall-judged', 'relay-send-stall-judged',
+                 'idle-expiry-judged', 'http-client-greenlet-checked', 'mx-dns-stall-judged', 'split-timeouts-judged']
 SHARDS = {'quick': 4, 'thorough': 16}
 BUDGET = {'quick': 50, 'thorough': 600}
 
@@ -131,6 +183,7 @@ SETTLE = 6
 WATCHDOG = 60.0        # whole batch
 STAGGER = 0.006
 STEP_WATCHDOG = 30.0   # a single harness wait (reply expected, stall point reached)
+RERUNS = 4             # a case whose session failed BEFORE its stall point (load) is re-run this often
 TS = {'quick': [0.05, 0.1], 'thorough': [0.05, 0.1, 0.2]}
 TS_SLOW = {'quick': [0.2], 'thorough': [0.2, 0.4]}
 
@@ -292,6 +345,7 @@ SERVER_STAGES = {
     'tls-data': ({'tls': 'starttls'}, _TLS_EHLO + _DATA[3:], ['silent-partial-body', 'trickle-bytes']),
 }
 HANDSHAKE_STAGES = ('tls-immediate-handshake', 'starttls-handshake')
+DATA_GOVERNED_SERVER_STAGES = ('data', 'tls-data')      # the stall is inside the DATA phase: data_timeout
 EDGE_STAGES = [('ehlo', 'silent'), ('data', 'silent-partial-body'), ('data', 'trickle-bytes'), ('tls-ehlo', 'silent'),
                ('tls-data', 'silent-partial-body'), ('tls-immediate-banner', 'silent')]
 
@@ -373,9 +427,13 @@ def run_server_case(sub):
     ctx = tls.server_context() if cfg.get('tls') else None
     imm = cfg.get('tls') == 'immediate'
     st = {}
+    ct = dt = T
+    if sub.get('split'):
+        # only the timeout that is documented to govern the stalled step is T, the other one is out of reach
+        ct, dt = (BIG, T) if stage in DATA_GOVERNED_SERVER_STAGES else (T, BIG)
     if driver == 'edge':
         edge = SmtpEdge(None, _NullQueue(), auth=cfg.get('auth', False), context=ctx, tls_immediately=imm,
-                        command_timeout=T, data_timeout=T, hostname='c14.test')
+                        command_timeout=ct, data_timeout=dt, hostname='c14.test')
 
         def run():
             try:
@@ -387,7 +445,7 @@ def run_server_case(sub):
                 st['end'] = 'exception:' + type(e).__name__
     else:
         srv = Server(a, _Handlers(), address=('127.0.0.1', 4321), auth=cfg.get('auth', False), context=ctx,
-                     tls_immediately=imm, command_timeout=T, data_timeout=T)
+                     tls_immediately=imm, command_timeout=ct, data_timeout=dt)
 
         def run():
             try:
@@ -478,12 +536,14 @@ def run_server_case(sub):
         cl.drain()
         last = cl.last_code()
         res.detail.update({'T': T, 'stage': stage, 'pattern': pattern, 'driver': driver,
-                           'session_greenlet_ended': ended, 'session_end': st.get('end'),
+                           'command_timeout': ct, 'data_timeout': dt, 'session_greenlet_ended': ended, 'session_end': st.get('end'),
                            'harness_slept_at_least': K * T, 'last_reply_code_seen': last,
                            'client_saw_eof': cl.eof, 'replies_tail': cl.all[-160:]})
         res.obs.append(('server-end', (driver, stage, pattern, st.get('end'), last)))
         trick = pattern.startswith('trickle')
         res.hits.append('edge-stall-judged' if driver == 'edge' else 'server-stall-judged')
+        if sub.get('split'):
+            res.hits.append('split-timeouts-judged')
         if trick:
             res.hits.append('server-trickle-judged')
             res.detail['trickle_units_sent'] = sent
@@ -586,9 +646,10 @@ def run_server_control(sub):
 
 RELAY_STALL_STAGES = ['connect', 'banner', 'ehlo', 'starttls', 'tlshandshake', 'tls-immediate-handshake', 'auth',
                       'mail', 'rcpt0', 'data', 'eod0', 'rset', 'quit']
-RESULT_ALREADY_SET = ('rset', 'quit')     # the attempt's outcome is decided before these steps
+RESULT_ALREADY_SET = ('rset', 'quit', 'rset-after-lmtp-failure')     # the attempt's outcome is decided before these steps
 RELAY_IDLE = 5.0       # idle_timeout of re-use cases: only has to outlast the gap between two attempts
-_PARTIAL = {'banner': b'220 downstream rea', 'ehlo': b'250-downstream greets you\r\n250-8BITMIME\r\n250 PIPELI',
+_PARTIAL = {'helo': b'250 downstre', 'empty-data-eod': b'250 2.0.0 queu', 'rset-after-lmtp-failure': b'250 2.0.0 res',
+            'banner': b'220 downstream rea', 'ehlo': b'250-downstream greets you\r\n250-8BITMIME\r\n250 PIPELI',
             'starttls': b'220 2.0.0 go ah', 'auth': b'235 2.7.0 authentica', 'mail': b'250 2.1.0 sender o',
             'rcpt0': b'250 2.1.5 recipient o', 'rcpt1': b'250 2.1.5 recipient o', 'data': b'354 go ah',
             'eod0': b'250 2.0.0 queu', 'eod1': b'250 2.0.0 deliv', 'rset': b'250 2.0.0 res', 'quit': b'221 2.0.0 b',
@@ -601,6 +662,8 @@ _TRICKLE_CODE = {'banner': '220', 'mail': '250', 'rcpt0': '250', 'rcpt1': '250',
 def _action(stage, pattern, T, rnd):
     if pattern == 'stall':
         return ('stall',)
+    if pattern == 'noread':
+        return ('noread',)
     if pattern == 'partial':
         full = _PARTIAL[stage]
         if stage.endswith('handshake'):
@@ -617,7 +680,28 @@ def _envelope(sub, n=0):
     tag = sub.get('rs', 0) % 1000
     env = Envelope('sender%d@c14.test' % tag, ['rcpt%d-%d@c14.test' % (tag, i) for i in range(sub['nrcpt'])])
     env.parse(b'Subject: c14\r\nX-Verif-Msg: c14-%d-%d\r\n\r\nbody line\r\n.leading dot\r\n' % (tag, n))
+    if sub.get('big'):
+        env.message = env.message + (b'x' * 70 + b'\r\n') * (sub['big'] // 72)
     return env
+
+
+def relay_timeouts(sub, T):
+    """(connect, command, data).  Normally all T.  'split' cases: only the timeout(s) documented to govern the stalled
+    step are T, the others are BIG (out of reach), so a step sitting in the wrong scope is 'still blocked'.  Banner
+    and immediate-TLS handshake: the documentation does not say connect or command -- both are T there."""
+    if not sub.get('split'):
+        return T, T, T
+    st = sub['stage']
+    if st == 'connect':
+        return T, BIG, BIG
+    if st in ('banner', 'tls-immediate-handshake'):
+        return T, T, BIG
+    if st in DATA_GOVERNED_RELAY_STAGES:
+        return BIG, BIG, T
+    return BIG, T, BIG
+
+
+DATA_GOVERNED_RELAY_STAGES = ('body', 'eod0', 'eod1', 'empty-data-eod')
 
 
 def _mk_relay(sub, script, T):
@@ -629,9 +713,13 @@ def _mk_relay(sub, script, T):
     want_auth = 'auth' in stages
     ds = Downstream14(script, lmtp=lmtp, pipelining=sub['pipelining'],
                       tls_context=tls.server_context() if want_tls else None, tls_immediately=imm,
-                      auth=want_auth, deaf=bool(sub.get('tls')))
+                      auth=want_auth, deaf=bool(sub.get('tls')),
+                      small_buffers=SMALL_SNDBUF if sub.get('small_buffers') else None,
+                      lenient_data='empty-data-eod' in stages)
     ds.probe_log = []
-    kw = dict(socket_creator=ds.creator, connect_timeout=T, command_timeout=T, data_timeout=T,
+    ds.push_on_probe = True
+    cn, cm, da = relay_timeouts(sub, T)
+    kw = dict(socket_creator=ds.creator, connect_timeout=cn, command_timeout=cm, data_timeout=da,
               ehlo_as='relay.c14.test', context=tls.client_context())
     if imm:
         kw['tls_immediately'] = True
@@ -646,15 +734,19 @@ def _mk_relay(sub, script, T):
     def add_client():
         c = orig()
         clients.append(c)
-        _observe_probe(c, ds.probe_log)
+        _observe_probe(c, ds)
         return c
     relay.add_client = add_client
     return ds, relay, clients
 
 
-def _observe_probe(c, log):
-    """Monitor (no behaviour change): note every call of the client's _check_server_timeout(): did
-    has_reply_waiting() see unsolicited bytes, and how did the call end ('inside' = still in there)."""
+def _observe_probe(c, ds):
+    """Monitor: note every call of the client's _check_server_timeout(): did has_reply_waiting() see unsolicited
+    bytes, and how did the call end ('inside' = still in there).  It is also the fault injector's clock: an
+    unsolicited fragment the scripted next hop is withholding (after-ehlo / idle) is put on the wire at the instant
+    the client starts looking (ds.push_now()), so hitting slimta's 10 ms has_reply_waiting() window does not depend
+    on how promptly the harness gets scheduled."""
+    log = ds.probe_log
     orig = c._check_server_timeout
 
     def probe():
@@ -664,6 +756,8 @@ def _observe_probe(c, log):
         orig_w = cl.has_reply_waiting
 
         def waiting():
+            if ds.push_now():
+                e['fragment_put_on_the_wire_when_the_probe_began'] = True
             e['waiting'] = r = orig_w()
             return r
         cl.has_reply_waiting = waiting
@@ -729,7 +823,7 @@ def _is_success(out):
     return not isinstance(r, Exception)
 
 
-_PEER_DID = {'stall': 'went silent', 'partial': 'sent half a reply line', 'trickle': 'began trickling its reply',
+_PEER_DID = {'noread': 'stopped reading', 'stall': 'went silent', 'partial': 'sent half a reply line', 'trickle': 'began trickling its reply',
              'unsolicited-partial-line': 'pushed half an unsolicited reply line and went silent',
              'unsolicited-continuation-line': 'pushed unsolicited 421- continuation lines without a last line'}
 
@@ -738,7 +832,9 @@ def _judge_relay_attempt(sub, res, T, ds, g, out, clients, stage, pattern, label
     """Wait for the stall to begin, run the chain, judge. Returns False if the stage was never reached."""
     gevent.wait([ds.stalled, g], timeout=STEP_WATCHDOG, count=1)
     live = [c for c in clients if not c.dead]
-    if not ds.stalled.is_set() and stage in RESULT_ALREADY_SET and live:
+    already = stage in RESULT_ALREADY_SET or (stage == 'empty-data-eod' and sub['pipelining'])
+    # (with PIPELINING the '.' of an empty message is only flushed, and its reply awaited, by the RSET that follows)
+    if not ds.stalled.is_set() and already and live:
         # the attempt's result is handed over before RSET / QUIT: the client greenlet goes on alone
         gevent.wait([ds.stalled] + live, timeout=STEP_WATCHDOG, count=1)
     if not ds.stalled.is_set():
@@ -749,16 +845,35 @@ def _judge_relay_attempt(sub, res, T, ds, g, out, clients, stage, pattern, label
         return False
     if pre_chain:
         pre_chain()
+    if stage == 'body':
+        # send-side stall: it begins when the client is blocked in send() (state polling, watchdog => inconclusive)
+        t0 = time.monotonic()
+        while time.monotonic() - t0 < STEP_WATCHDOG and not out.get('done'):
+            if any((where_blocked(c) or [''])[-1].startswith('smtp/io.py:raw_send:') for c in clients if not c.dead):
+                break
+            gevent.sleep(0.0005)
+        else:
+            if not out.get('done'):
+                res.inconc = 'watchdog: the relay client never blocked in send() nor ended'
+                return False
+        res.detail.setdefault(label, {})['client_was_blocked_in_send'] = not out.get('done')
     chain_sleep(T)
     done = bool(out.get('done'))
     alive = [c for c in clients if not c.dead]
+    if sub.get('split') and stage in DATA_GOVERNED_RELAY_STAGES:
+        alive = []      # the QUIT that follows is governed by the command timeout, which is out of reach here
     d = res.detail.setdefault(label, {})
     d.update({'stage': stage, 'pattern': pattern, 'attempt_ended': done, 'outcome': _outcome(out),
+              'connect_command_data_timeouts': list(relay_timeouts(sub, T)),
               'client_greenlets_alive': len(alive), 'stalls_begun': list(ds.stall_log),
               'server_timeout_probe_calls': [dict(e) for e in ds.probe_log],
               'commands_seen_by_next_hop': [[v for v, _ in c.commands] for c in ds.conns],
               'harness_slept_at_least_after_stall_began': K * T})
     res.hits.append('relay-stall-judged')
+    if sub.get('split'):
+        res.hits.append('split-timeouts-judged')
+    if stage == 'body' and d.get('client_was_blocked_in_send'):
+        res.hits.append('relay-send-stall-judged')
     if pattern == 'trickle':
         res.hits.append('relay-trickle-judged')
         d['bytes_trickled_before_judgement'] = ds.trickled
@@ -780,7 +895,7 @@ def _judge_relay_attempt(sub, res, T, ds, g, out, clients, stage, pattern, label
         res.failed.append((label, 'client-greenlet-still-blocked',
                            'Relay.attempt ended (%s) but the relay client greenlet is still blocked after %d*T at %s'
                            % (_outcome(out)[:60], K, (d['blocked_at'][0] or ['?'])[-1])))
-    if stage not in RESULT_ALREADY_SET:
+    if not already:
         res.hits.append('relay-error-class-checked')
         if not _is_transient(out):
             res.failed.append((label, 'wrong-error-class',
@@ -826,6 +941,19 @@ def run_relay_case(sub):
             return act
         if stg == 'rset' and st == 'data':
             return ('reply', '550')
+        if stg == 'helo' and st == 'ehlo':
+            return ('reply', '500')             # the client falls back to HELO, which is then stalled
+        if stg == 'empty-data-eod':
+            # every recipient refused yet DATA answered 354: the client ends the (empty) message, that reply stalls
+            if st.startswith('rcpt'):
+                return ('reply', '550')
+            if st == 'eod0':
+                return act
+        if stg == 'rset-after-lmtp-failure':
+            if st == 'eod0':
+                return ('reply', '450')
+            if st == 'rset':
+                return act
         return ('ok',)
 
     ds, relay, clients = _mk_relay(sub, script, T)
@@ -850,10 +978,7 @@ def run_relay_case(sub):
             out2 = {}
             before = list(clients)
             if probe:
-                ds.stalled.wait(STEP_WATCHDOG)        # the unasked half line has been sent on the idle connection
-                if not ds.stalled.is_set():
-                    res.inconc = 'stall-stage-not-reached: the next hop never got to its idle stage'
-                    return res
+                # (the unasked half line is put on the idle connection when the client starts probing)
                 started = Event()
                 g2 = _attempt(relay, _envelope(sub, 1), out2, started)
                 gs.append(g2)
@@ -948,6 +1073,14 @@ def run_relay_control(sub):
         # are awaited in one step, and all LMTP end-of-data replies are awaited in one step
         if st == 'tlshandshake' or (st.startswith('eod') and st != 'eod0'):
             return ('ok',)
+        if sub.get('slow_body'):
+            # the next hop starts reading the (large) message only after T/2: one delay inside the data step
+            if st == 'body':
+                return ('delay', T / 2.0, ('ok',))
+            if st.startswith('eod'):
+                return ('ok',)
+        elif st == 'body':
+            return ('ok',)
         if sub['pipelining'] and (st == 'mail' or st.startswith('rcpt')):
             return ('ok',)
         return ('delay', T / 2.0, ('ok',))
@@ -985,6 +1118,8 @@ _STUBS = {
     'sleeps-pipes-closed': '#!/bin/sh\necho $$ > "%(dir)s/$$.pid"\nexec sleep 30 <&- >&- 2>&-\n',
     # never reads stdin (message larger than the pipe buffer), never exits
     'never-reads-stdin': '#!/bin/sh\necho $$ > "%(dir)s/$$.pid"\nexec sleep 30 >/dev/null 2>&1 <&0\n',
+    # reads the message and exits 0 at once, but a grandchild keeps its stdout / stderr open
+    'exits-grandchild-holds-pipes': '#!/bin/sh\ncat > /dev/null\nsleep 30 &\necho $! > "%(dir)s/$!.pid"\nexit 0\n',
 }
 _scratch = {}
 
@@ -1100,9 +1235,16 @@ def run_http_case(sub):
 
     def handler(sock, addr):
         try:
-            if pattern == 'never-answers':
+            if pattern in ('never-answers', 'https-never-handshakes'):
                 stalled.set()
                 silent(sock)
+            elif pattern == 'request-write-noread':
+                stalled.set()
+                Event().wait()              # never reads: the request (several MB) cannot be written out
+            elif pattern == 'https-never-answers-deaf':
+                read_request(sock)
+                stalled.set()
+                Event().wait()              # not even the TLS layer reacts any more (no close_notify back)
             elif pattern in ('partial-status-line', 'headers-unfinished'):
                 read_request(sock)
                 sock.sendall(b'HTTP/1.1 20' if pattern == 'partial-status-line' else _HTTP_OK.split(b'\r\n\r\n')[0] + b'\r\n')
@@ -1126,16 +1268,37 @@ def run_http_case(sub):
 
     listener = None
     srv = None
+    fillers = []
+    https = pattern.startswith('https-')
     if pattern == 'never-accepted':
         listener = socket.socket()
         listener.bind(('127.0.0.1', 0))
         listener.listen(8)
         port = listener.getsockname()[1]
+    elif pattern == 'connect-syn-dropped':
+        # accept queue of 1, filled by the harness and never accepted: the kernel drops further SYNs, so the
+        # relay's connect() itself does not complete
+        import socket as _s
+        listener = _s.socket()
+        listener.bind(('127.0.0.1', 0))
+        listener.listen(0)
+        port = listener.getsockname()[1]
+        for _ in range(3):
+            f = _s.socket()
+            f.setblocking(False)
+            try:
+                f.connect(('127.0.0.1', port))
+            except (BlockingIOError, OSError):
+                pass
+            fillers.append(f)
+        gevent.sleep(0.02)
     else:
-        srv = StreamServer(('127.0.0.1', 0), handler)
+        kw = {'ssl_context': tls.server_context()} if pattern == 'https-never-answers-deaf' else {}
+        srv = StreamServer(('127.0.0.1', 0), handler, **kw)
         srv.start()
         port = srv.server_port
-    relay = HttpRelay('http://127.0.0.1:%d/deliver' % port, timeout=T, ehlo_as='relay.c14.test')
+    relay = HttpRelay('%s://127.0.0.1:%d/deliver' % ('https' if https else 'http', port), timeout=T,
+                      ehlo_as='relay.c14.test', pool_size=1, context=tls.client_context() if https else None)
     hclients = []
     orig_add = relay.add_client
 
@@ -1146,7 +1309,8 @@ def run_http_case(sub):
     relay.add_client = add_client
     out = {}
     started = Event()
-    g = _attempt(relay, _envelope(sub), out, started)
+    g = _attempt(relay, _envelope(dict(sub, big=HTTP_BIG) if pattern == 'request-write-noread' else sub), out, started)
+    g_next = None
     try:
         if pattern == 'slow-ok':
             g.join(timeout=STEP_WATCHDOG)
@@ -1157,14 +1321,18 @@ def run_http_case(sub):
             return res
         started.wait(STEP_WATCHDOG)
         gevent.sleep(0)
-        if pattern != 'never-accepted':
+        if pattern not in ('never-accepted', 'connect-syn-dropped'):
             gevent.wait([stalled, g] + list(hclients), timeout=STEP_WATCHDOG, count=1)
             if not stalled.is_set() and (out.get('done') or any(not c.dead for c in hclients) or not hclients):
                 res.inconc = 'stall-stage-not-reached: http attempt %s before the server stalled' % _outcome(out)
                 return res
             # (stalled not set, attempt blocked, its only client greenlet already gone: judged below as well --
             # nobody is left who could ever end the attempt; the detail says the stall point was not reached)
-        res.detail['stall_point_reached'] = pattern == 'never-accepted' or stalled.is_set()
+        res.detail['stall_point_reached'] = pattern in ('never-accepted', 'connect-syn-dropped') or stalled.is_set()
+        if pattern == 'connect-syn-dropped':
+            gevent.sleep(0)
+            res.detail['relay_socket_connected_when_chain_began'] = any(
+                getattr(c.conn, 'sock', None) is not None for c in hclients)
         chain_sleep(T)
         done = bool(out.get('done'))
         clients = list(hclients)
@@ -1185,20 +1353,47 @@ def run_http_case(sub):
         elif not _is_transient(out):
             res.failed.append(('wrong-error-class', 'HTTP attempt that timed out ended with "%s", not a transient failure'
                                % _outcome(out)))
+        if done:
+            # no idle_timeout: the client greenlet (a pool slot) must be gone too, or the pool (pool_size=1) is stuck
+            res.hits.append('http-client-greenlet-checked')
+            alive = [c for c in clients if not c.dead]
+            if alive:
+                out2 = {}
+                g_next = _attempt(relay, _envelope(sub, 1), out2)
+                chain_sleep(T)
+                res.detail['client_blocked_at'] = [where_blocked(c) for c in alive]
+                res.detail['next_attempt_on_this_pool_of_size_1'] = _outcome(out2)
+                res.failed.append(('client-greenlet-still-blocked',
+                                   'HttpRelay(timeout=%gs, pool_size=1).attempt ended (%s) but its client greenlet is still '
+                                   'blocked after %d*T at %s; the next attempt on this pool: %s'
+                                   % (T, _outcome(out)[:50], K, (res.detail['client_blocked_at'][0] or ['?'])[-1],
+                                      _outcome(out2)[:50])))
         return res
     finally:
         g.kill(block=False)
-        relay.kill()
+        if g_next is not None:
+            g_next.kill(block=False)
+        for c in hclients:
+            # never a blocking kill: a client stuck in a TLS goodbye would block again in its own `finally`
+            try:
+                if c.conn is not None and c.conn.sock is not None:
+                    c.conn.sock.close()
+            except Exception:
+                pass
+            c.kill(block=False)
         if srv is not None:
             srv.stop(timeout=0)
         if listener is not None:
             listener.close()
+        for f in fillers:
+            f.close()
 
 
 # ---------------------------------------------------------------- HTTP relay, connection re-use
 
 HTTP_REUSE = ['previous-complete+next-silent', 'previous-complete+next-trickle', 'previous-body-unfinished',
               'previous-body-trickled', 'previous-body-short-then-closed']
+HTTP_BIG = 6000000     # bytes: more than loopback TCP buffers take (send-side stall)
 HTTP_IDLE = 5.0        # only has to outlast the gap between the two attempts; never part of a verdict
 
 
@@ -1292,7 +1487,8 @@ def run_http_reuse_case(sub):
 
     srv = StreamServer(('127.0.0.1', 0), handler)
     srv.start()
-    relay = HttpRelay('http://127.0.0.1:%d/deliver' % srv.server_port, timeout=T, idle_timeout=HTTP_IDLE,
+    http_idle = HTTP_IDLE * sub.get('scale', 1)
+    relay = HttpRelay('http://127.0.0.1:%d/deliver' % srv.server_port, timeout=T, idle_timeout=http_idle,
                       ehlo_as='relay.c14.test')
     hclients = []
     orig_add = relay.add_client
@@ -1308,7 +1504,7 @@ def run_http_reuse_case(sub):
         g1 = _attempt(relay, _envelope(sub), out1)
         gs.append(g1)
         g1.join(timeout=STEP_WATCHDOG)
-        res.detail.update({'T': T, 'pattern': pattern, 'idle_timeout': HTTP_IDLE, 'first_outcome': _outcome(out1)})
+        res.detail.update({'T': T, 'pattern': pattern, 'idle_timeout': http_idle, 'first_outcome': _outcome(out1)})
         if not _is_success(out1):
             if control:
                 res.ok = False
@@ -1371,13 +1567,738 @@ def run_http_reuse_case(sub):
         srv.stop(timeout=0)
 
 
+# ---------------------------------------------------------------- server side: a peer that does not READ
+#
+# Send-side stalls need real kernel buffers: the server's end of the socketpair gets a small SO_SNDBUF, the harness
+# never reads and makes the server write reply after reply (NOOP) until its flush blocks in send().  Where the
+# session greenlet is parked is read off its frame (IO.raw_send / IO.raw_recv) -- state polling, no timing.
+
+WRITE_STAGES = ('reply-write', 'timeout-421-write', 'data-354-write', 'eod-250-write')
+SMALL_SNDBUF = 4096
+BIG = 1000.0           # a timeout that must NOT be the one governing the stalled step ('split' cases)
+_NOOP_CAL = {}
+_NOOP_REPLY = b'250 2.0.0 Ok\r\n'
+
+
+def _inq(fileno):
+    import fcntl
+    import struct
+    import termios
+    try:
+        return struct.unpack('i', fcntl.ioctl(fileno, termios.FIONREAD, b'\0\0\0\0'))[0]
+    except (OSError, IOError, ValueError):
+        return 0
+
+
+def _parked(g, st):
+    """'ended' | 'send' (blocked in IO.raw_send) | 'recv' (parked in IO.raw_recv) | 'other'."""
+    if 'end' in st or g is None or g.dead:
+        return 'ended'
+    w = where_blocked(g)
+    inner = w[-1] if w else ''
+    if inner.startswith('smtp/io.py:raw_send:'):
+        return 'send'
+    if inner.startswith('smtp/io.py:raw_recv:'):
+        return 'recv'
+    return 'other'
+
+
+def _wait_parked(get_g, st, get_fileno):
+    """Poll until the session is blocked in send, has ended, or has consumed all input and waits for more."""
+    t0 = time.monotonic()
+    while time.monotonic() - t0 < STEP_WATCHDOG:
+        gevent.sleep(0.0005)
+        s = _parked(get_g(), st) if get_g() is not None else 'other'
+        if s in ('ended', 'send'):
+            return s
+        if s == 'recv':
+            try:
+                if _inq(get_fileno()) == 0:
+                    return 'recv'
+            except Exception:
+                return 'recv'
+    return 'watchdog'
+
+
+class _WriteSession(object):
+    """A bare Server on a socketpair whose server end has a small send buffer; harness = ClientSide on the other."""
+
+    def __init__(self, command_timeout, data_timeout, use_tls=False):
+        import socket as _s
+        self.a, self.b = socket.socketpair()
+        self.a.setsockopt(_s.SOL_SOCKET, _s.SO_SNDBUF, SMALL_SNDBUF)
+        self.st = {}
+        ctx = tls.server_context() if use_tls else None
+        self.srv = srv = Server(self.a, _Handlers(), address=('127.0.0.1', 4321), context=ctx,
+                                command_timeout=command_timeout, data_timeout=data_timeout)
+        st = self.st
+
+        def run():
+            try:
+                try:
+                    srv.handle()
+                    st['end'] = 'returned'
+                except gevent.GreenletExit:
+                    st['end'] = 'killed'
+                except BaseException as e:
+                    st['end'] = 'exception:' + type(e).__name__
+            finally:
+                try:
+                    srv.io.socket.close()
+                except Exception:
+                    pass
+        self.g = gevent.spawn(run)
+        self.cl = ClientSide(self.b)
+
+    def fileno(self):
+        return self.srv.io.socket.fileno()
+
+    def drive(self, prefix):
+        for op in prefix:
+            if op[0] == 'r':
+                code = self.cl.read_reply()
+                if code != op[1]:
+                    return 'expected %s got %s' % (op[1], code)
+            elif op[0] == 's':
+                self.cl.sock.sendall(op[1])
+            elif op[0] == 'tls':
+                self.cl.sock = tls.client_context().wrap_socket(self.cl.sock)
+        return None
+
+    def wait(self):
+        return _wait_parked(lambda: self.g, self.st, self.fileno)
+
+    def noops_until_blocked(self, burst=400):
+        """`burst` NOOPs in one segment, never reading (the session works through them without waiting for the
+        harness, so its command timeout cannot hit in between): returns (n, state), n = unread NOOP replies that
+        fitted before the next write blocked (read off the harness' end: FIONREAD / reply length)."""
+        self.cl.sock.sendall(b'NOOP\r\n' * burst)
+        s = self.wait()
+        n = None
+        if s == 'send':
+            try:
+                n = _inq(self.b.fileno()) // len(_NOOP_REPLY)
+            except Exception:
+                n = None
+        return n, s
+
+    def close(self):
+        self.g.kill(block=False)
+        for s in (self.cl.sock, self.a, self.b):
+            try:
+                s.close()
+            except Exception:
+                pass
+
+
+def _write_prefix(use_tls):
+    return (_TLS_EHLO + _RCPT[3:]) if use_tls else _RCPT
+
+
+def _calibrate_noops(use_tls):
+    """How many unread NOOP replies fit after the prefix before the next small write blocks (kernel accounting is
+    per write for AF_UNIX, so this is stable within a process)."""
+    if use_tls not in _NOOP_CAL:
+        ws = _WriteSession(20.0, 20.0, use_tls)
+        try:
+            with gevent.Timeout(STEP_WATCHDOG, False):
+                if ws.drive(_write_prefix(use_tls)) is None:
+                    n, s = ws.noops_until_blocked()
+                    if s == 'send' and n:
+                        _NOOP_CAL[use_tls] = n + 1          # the (n+1)-th small write is the one that blocks
+        finally:
+            ws.close()
+    return _NOOP_CAL.get(use_tls)
+
+
+def run_server_write_case(sub):
+    res = Result()
+    T = sub['T']
+    stage, pattern = sub['stage'], sub['pattern']
+    use_tls = bool(sub.get('tls'))
+    control = pattern == 'slow-reader'
+    n_cal = None
+    if stage != 'reply-write':
+        n_cal = _calibrate_noops(use_tls)
+        if not n_cal or n_cal < 4:
+            res.inconc = 'stall-stage-not-reached: could not calibrate the send buffer (%r)' % (n_cal,)
+            return res
+    ct, dt = T, T
+    ws = _WriteSession(ct, dt, use_tls)
+    try:
+        wd = gevent.Timeout(STEP_WATCHDOG)
+        wd.start()
+        try:
+            err = ws.drive(_write_prefix(use_tls))
+            if err:
+                res.inconc = 'stall-stage-not-reached: %s while driving to %s' % (err, stage)
+                return res
+            sent = 0
+            reached = None
+            if stage == 'reply-write':
+                sent, s = ws.noops_until_blocked()
+                reached = s == 'send'
+                if use_tls:
+                    sent = None         # (bytes in the pipe are TLS records: not counted)
+            else:
+                # everything in ONE segment, so the session never waits for the harness on its way to the write
+                sent = want = n_cal - (2 if stage == 'eod-250-write' else 1)
+                burst = b'NOOP\r\n' * want
+                if stage == 'data-354-write':
+                    burst += b'DATA\r\n'
+                elif stage == 'eod-250-write':
+                    burst += b'DATA\r\n' + _BODY + b'.\r\n'
+                ws.cl.sock.sendall(burst)
+                s = ws.wait()
+                if stage == 'timeout-421-write':
+                    # nothing more is sent; the next thing the server writes is its 421
+                    if s != 'recv':
+                        res.inconc = 'stall-stage-not-reached: session %s after %d unread NOOP replies' % (s, want)
+                        return res
+                else:
+                    reached = s == 'send'
+        except gevent.Timeout as t:
+            if t is not wd:
+                raise
+            res.inconc = 'watchdog: while driving the session to stage %s' % stage
+            return res
+        except (OSError, IOError) as e:
+            res.inconc = 'stall-stage-not-reached: %s while driving the session to stage %s' % (type(e).__name__, stage)
+            return res
+        finally:
+            wd.close()
+        if s == 'watchdog':
+            res.inconc = 'watchdog: session neither parked nor ended at stage %s' % stage
+            return res
+        if control:
+            # must succeed: the reader is merely slow (T/2), then reads everything and says QUIT
+            if not reached:
+                res.inconc = 'stall-stage-not-reached: the reply write never blocked (%s)' % s
+                return res
+            gevent.sleep(T / 2.0)
+            code = None
+            with gevent.Timeout(STEP_WATCHDOG, False):
+                ws.cl.sock.sendall(b'QUIT\r\n')
+                while True:
+                    code = ws.cl.read_reply()
+                    if code in (None, '221', '421'):
+                        break
+            res.detail.update({'T': T, 'stage': stage, 'pattern': pattern, 'unread_noops_when_write_blocked': sent,
+                               'last_reply_code_seen': code, 'session_end': ws.st.get('end')})
+            res.ok = code == '221'
+            return res
+        # ---- the stall has begun (the write is blocked / the client is silent with a full pipe)
+        chain_sleep(T)
+        ended = 'end' in ws.st
+        parked = _parked(ws.g, ws.st)
+        blocked_at = where_blocked(ws.g) if not ended else None
+        scopes = scopes_of(ws.g) if not ended else None
+        ws.cl.drain()
+        last = ws.cl.last_code()
+        if stage == 'timeout-421-write':
+            # reached iff the 421 did not fit into the pipe (a complete 421 read back = it was never blocked)
+            reached = not (ended and last == '421' and ws.cl.all.endswith(b'\r\n'))
+        res.detail.update({'T': T, 'stage': stage, 'pattern': pattern, 'tls': use_tls, 'server_SO_SNDBUF': SMALL_SNDBUF,
+                           'unread_noops': sent, 'calibrated_noops_until_blocked': n_cal,
+                           'write_was_blocked': bool(reached), 'session_greenlet_ended': ended,
+                           'session_end': ws.st.get('end'), 'parked_in': parked, 'command_timeout': ct,
+                           'data_timeout': dt, 'harness_slept_at_least': K * T, 'last_reply_code_read_afterwards': last})
+        res.obs.append(('server-end', ('server', stage, pattern, ws.st.get('end'), bool(reached))))
+        if not reached:
+            res.inconc = 'stall-stage-not-reached: the write at %s did not block (session %s)' % (stage, ws.st.get('end'))
+            return res
+        res.hits.append('server-write-stall-judged')
+        res.hits.append('server-stall-judged')
+        if not ended:
+            res.detail['blocked_at'] = blocked_at
+            res.detail['active_timeout_scopes_in_blocked_greenlet'] = scopes
+            res.failed.append(('still-blocked',
+                               'session greenlet still blocked after the harness slept %d*T (T=%gs) since the client '
+                               'stopped reading (%s); blocked at %s with timeout scopes %s'
+                               % (K, T, stage, (blocked_at or ['?'])[-1], scopes)))
+        return res
+    finally:
+        ws.close()
+
+
+def run_server_write_tcp_case(sub):
+    """The same over loopback TCP through a listening SmtpEdge (StreamServer accept path): listener with a small
+    SO_SNDBUF (inherited by accepted sockets), client with a small SO_RCVBUF that never reads, NOOPs in batches."""
+    import socket as _s
+    res = Result()
+    T = sub['T']
+    lst = _s.socket()
+    lst.setsockopt(_s.SOL_SOCKET, _s.SO_SNDBUF, SMALL_SNDBUF)
+    lst.bind(('127.0.0.1', 0))
+    lst.listen(8)
+    lst.setblocking(False)
+    port = lst.getsockname()[1]
+    glst = socket.socket(fileno=lst.detach())
+    edge = SmtpEdge(glst, _NullQueue(), command_timeout=T, data_timeout=T, hostname='c14.test')
+    st = {}
+    orig = edge.handle
+
+    def handle(sock, addr):
+        st['g'] = gevent.getcurrent()
+        st['sock'] = sock
+        try:
+            orig(sock, addr)
+            st['end'] = 'returned'
+        except gevent.GreenletExit:
+            st['end'] = 'killed'
+        except BaseException as e:
+            st['end'] = 'exception:' + type(e).__name__
+            raise
+    edge.handle = handle
+    edge.server.start()
+    c = socket.socket()
+    c.setsockopt(_s.SOL_SOCKET, _s.SO_RCVBUF, 2048)
+    try:
+        s = 'other'
+        sent = 0
+        with gevent.Timeout(STEP_WATCHDOG, False):
+            c.connect(('127.0.0.1', port))
+            cl = ClientSide(c)
+            for op in _EHLO:
+                if op[0] == 'r':
+                    code = cl.read_reply()
+                    if code != op[1]:
+                        res.inconc = 'stall-stage-not-reached: expected %s got %s' % (op[1], code)
+                        return res
+                else:
+                    c.sendall(op[1])
+            # one segment train, so the session never waits for the harness on its way to the blocked write
+            sent = 3000
+            c.sendall(b'NOOP\r\n' * sent)
+            s = _wait_parked(lambda: st.get('g'), st, lambda: st['sock'].fileno())
+        if s != 'send':
+            res.inconc = ('stall-stage-not-reached: session %s after %d unread NOOPs over TCP' % (s, sent)) \
+                if s != 'watchdog' else 'watchdog: TCP session neither parked nor ended'
+            return res
+        chain_sleep(T)
+        ended = 'end' in st
+        res.detail.update({'T': T, 'stage': sub['stage'], 'pattern': sub['pattern'], 'transport': 'loopback TCP via '
+                           'SmtpEdge listener', 'unread_noops': sent, 'session_greenlet_ended': ended,
+                           'session_end': st.get('end'), 'harness_slept_at_least': K * T})
+        res.obs.append(('server-end', ('edge-tcp', sub['stage'], sub['pattern'], st.get('end'), True)))
+        res.hits.append('server-write-stall-judged')
+        res.hits.append('edge-stall-judged')
+        if not ended:
+            res.detail['blocked_at'] = where_blocked(st['g'])
+            res.detail['active_timeout_scopes_in_blocked_greenlet'] = scopes_of(st['g'])
+            res.failed.append(('still-blocked',
+                               'SmtpEdge session greenlet (TCP) still blocked after %d*T (T=%gs) since the client '
+                               'stopped reading; blocked at %s' % (K, T, (res.detail['blocked_at'] or ['?'])[-1])))
+        return res
+    finally:
+        g = st.get('g')
+        if g is not None:
+            g.kill(block=False)
+        try:
+            edge.server.stop(timeout=0)
+        except Exception:
+            pass
+        for s_ in (c, st.get('sock'), glst):
+            try:
+                if s_ is not None:
+                    s_.close()
+            except Exception:
+                pass
+
+
+# ---------------------------------------------------------------- PROXY protocol header in front of an SmtpEdge
+
+_PP_V2_SIG = b'\r\n\r\n\x00\r\nQUIT\n'
+_PP_FULL = {'v1': b'PROXY TCP4 192.0.2.7 192.0.2.8 4321 25\r\n',
+            'v2': _PP_V2_SIG + b'\x21\x11\x00\x0c' + b'\xc0\x00\x02\x07\xc0\x00\x02\x08\x10\xe1\x00\x19'}
+_PP_CLASSES = {'v1': _pp_mod.ProxyProtocolV1, 'v2': _pp_mod.ProxyProtocolV2, 'auto': _pp_mod.ProxyProtocol}
+
+
+def _proxy_edge(version, T):
+    cls = type('C14' + _PP_CLASSES[version].__name__ + 'SmtpEdge', (_PP_CLASSES[version], SmtpEdge), {})
+    return cls(None, _NullQueue(), command_timeout=T, data_timeout=T, hostname='c14.test')
+
+
+def run_proxy_case(sub):
+    """A (ProxyProtocol*, SmtpEdge) edge with command_timeout = data_timeout = T: the peer never completes the
+    PROXY header (silent / part of it / one byte per T/4).  Nothing SMTP can be said yet, so only 'the session
+    greenlet ends' is demanded.  Control 'slow-header': the header arrives in two halves T/2 apart, then EHLO."""
+    res = Result()
+    T = sub['T']
+    version, pattern = sub['stage'], sub['pattern']
+    rnd = random.Random(sub.get('rs', 0))
+    full = _PP_FULL['v2' if version == 'v2' else 'v1' if version == 'v1' else rnd.choice(['v1', 'v2'])]
+    a, b = socket.socketpair()
+    edge = _proxy_edge(version, T)
+    st = {}
+
+    def run():
+        try:
+            edge.handle(a, ('127.0.0.1', 4321))
+            st['end'] = 'returned'
+        except gevent.GreenletExit:
+            st['end'] = 'killed'
+        except BaseException as e:
+            st['end'] = 'exception:' + type(e).__name__
+    g = gevent.spawn(run)
+    cl = ClientSide(b)
+    try:
+        if pattern == 'slow-header':
+            codes = []
+            with gevent.Timeout(STEP_WATCHDOG, False):
+                h = len(full) // 2
+                b.sendall(full[:h])
+                gevent.sleep(T / 2.0)
+                b.sendall(full[h:])
+                codes.append(cl.read_reply())
+                gevent.sleep(T / 2.0)
+                b.sendall(b'EHLO c14.test\r\n')
+                codes.append(cl.read_reply())
+                b.sendall(b'QUIT\r\n')
+                codes.append(cl.read_reply())
+            res.detail.update({'T': T, 'proxy_protocol': version, 'reply_codes': codes, 'session_end': st.get('end')})
+            res.ok = codes == ['220', '250', '221']
+            return res
+        sent = 0
+        accepted = None
+        if pattern == 'trickle-bytes':
+            delta, n = T / 4.0, 4 * K
+            for i in range(n):
+                if 'end' in st and accepted is None:
+                    accepted = sent
+                try:
+                    b.sendall(full[i:i + 1])
+                    sent += 1
+                except (OSError, IOError):
+                    if accepted is None:
+                        accepted = sent
+                gevent.sleep(delta)
+            settle()
+        else:
+            frag = b''
+            if pattern == 'partial-header':
+                frag = full[:rnd.randrange(1, len(full) - 1)]
+                b.sendall(frag)
+            res.detail['fragment_sent'] = frag
+            gevent.sleep(0)
+            chain_sleep(T)
+        ended = 'end' in st
+        cl.drain()
+        res.detail.update({'T': T, 'proxy_protocol': version, 'pattern': pattern, 'session_greenlet_ended': ended,
+                           'session_end': st.get('end'), 'harness_slept_at_least': K * T,
+                           'edge_command_timeout': T, 'replies_tail': cl.all[-120:]})
+        res.obs.append(('server-end', ('edge-proxy', version, pattern, st.get('end'), cl.last_code())))
+        if pattern == 'trickle-bytes':
+            res.detail['trickle_units_sent'] = sent
+            res.detail['trickle_units_before_session_ended'] = accepted
+        # OBSERVATION ONLY, never a verdict: the PROXY header is read before any SMTP session exists and no configured
+        # timeout is documented to govern it, so C14 (server *session*, relay attempts) does not demand a bound here
+        res.counts.append(('unjudged/edge-proxy/%s/%s/%s' % (version, pattern,
+                                                              'ended' if ended else 'still-waiting-after-%d-x-command-timeout' % K), 1))
+        if not ended:
+            res.detail['blocked_at'] = where_blocked(g)
+        return res
+    finally:
+        g.kill(block=False)
+        for s in (a, b):
+            try:
+                s.close()
+            except Exception:
+                pass
+
+
+# ---------------------------------------------------------------- WsgiEdge: request body that never arrives (observed)
+
+class _NoPtrW(_NoPtr):
+    def kill(self, block=True):
+        pass
+
+
+def run_wsgi_observation(sub):
+    """Observation only: WsgiEdge has no timeout parameter, so nothing is demanded."""
+    import slimta.edge.wsgi as _wsgi_mod
+    res = Result()
+    T = sub['T']
+    _wsgi_mod.PtrLookup = _NoPtrW
+    edge = _wsgi_mod.WsgiEdge(_NullQueue(), hostname='c14.test', listener=('127.0.0.1', 0))
+    edge.server.start()
+    c = None
+    try:
+        c = socket.create_connection(('127.0.0.1', edge.server.server_port))
+        c.sendall(b'POST / HTTP/1.1\r\nHost: c14.test\r\nContent-Type: message/rfc822\r\nContent-Length: 100\r\n'
+                  b'X-Ehlo: c14.test\r\nX-Envelope-Sender: c0BjMTQudGVzdA==\r\nX-Envelope-Recipient: ckBjMTQudGVzdA==\r\n'
+                  b'\r\nSubject: c14\r\n')
+        chain_sleep(T)
+        got = None
+        with gevent.Timeout(0.05, False):
+            got = c.recv(200)
+        outcome = 'still-waiting' if got is None else 'answered-or-closed'
+        res.detail.update({'T': T, 'response_bytes': got, 'harness_slept_at_least': K * T})
+        res.counts.append(('unjudged/edge-wsgi/request-body/never-arrives/' + outcome, 1))
+        return res
+    finally:
+        if c is not None:
+            c.close()
+        edge.server.stop(timeout=0)
+
+
+# ---------------------------------------------------------------- MX relay: a resolver that never answers
+
+DNS_T = 0.1            # the stub channel's own timeout (c-ares: Channel(timeout=..., tries=1))
+
+
+class CaresLikeChannel(object):
+    """Stands in for pycares.Channel through the documented DNSResolver.channel plug point, with c-ares' timeout
+    contract: a query that gets no answer is completed with ARES_ETIMEOUT once `timeout` seconds (real clock) have
+    passed AND the owner calls process_fd(); timeout() tells how long the owner may wait at most; getsock() lists
+    the (UDP) socket while queries are outstanding.  Answers from `table` are delivered as a datagram would be:
+    the socket becomes readable, process_fd() completes the query."""
+
+    def __init__(self, timeout):
+        import socket as _s
+        self.to = timeout
+        self.sock = _s.socket(_s.AF_INET, _s.SOCK_DGRAM)
+        self.sock.bind(('127.0.0.1', 0))
+        self.sock.setblocking(False)
+        self.pending = []          # [deadline, callback, name, answer_at, answer]
+        self.table = {}            # name -> (delay, answer)
+        self.process_calls = 0
+
+    def query(self, name, query_type, callback):
+        now = time.monotonic()
+        delay, answer = self.table.get((name, query_type), (None, None))
+        e = [now + self.to, callback, name, None if delay is None else now + delay, answer]
+        self.pending.append(e)
+        if delay is not None:
+            gevent.spawn_later(delay, self._datagram)
+
+    def _datagram(self):
+        try:
+            self.sock.sendto(b'x', self.sock.getsockname())
+        except (OSError, IOError):
+            pass
+
+    def getsock(self):
+        return ([self.sock.fileno()] if self.pending else []), []
+
+    def timeout(self, t=None):
+        if not self.pending:
+            return 0.0
+        now = time.monotonic()
+        return max(0.0, min(min(e[0], e[3] if e[3] is not None else e[0]) for e in self.pending) - now)
+
+    def process_fd(self, rfd, wfd):
+        self.process_calls += 1
+        try:
+            while self.sock.recv(64):
+                pass
+        except (OSError, IOError):
+            pass
+        now = time.monotonic()
+        due, keep = [], []
+        for e in self.pending:
+            (due if (e[3] is not None and now >= e[3]) or now >= e[0] else keep).append(e)
+        self.pending = keep
+        for e in due:
+            if e[3] is not None and now >= e[3]:
+                e[1](e[4], None)
+            else:
+                e[1](None, _cares_errno.ARES_ETIMEOUT)
+
+    def cancel(self):
+        p, self.pending = self.pending, []
+        for e in p:
+            e[1](None, _cares_errno.ARES_ECANCELLED)
+
+
+class _MxAnswer(object):
+    def __init__(self, host):
+        self.priority, self.host, self.ttl = 10, host, 300
+
+
+_dns = {}
+
+
+def _dns_channel():
+    ch = _dns.get('ch')
+    if ch is None:
+        ch = _dns['ch'] = CaresLikeChannel(DNS_T)
+    if _dns_mod.DNSResolver._channel is not ch:
+        _dns_mod.DNSResolver.channel = ch
+        _dns_mod.DNSResolver._channel = ch
+    return ch
+
+
+def run_mx_dns_case(sub):
+    """MxSmtpRelay(connect/command/data timeout = T) whose MX lookup is never answered.  The step is not inside any
+    of the relay's own timeouts; what bounds it is the resolver's (here DNS_T), which slimta's DNSResolver must
+    drive (_wait_channel: timeout() -> process_fd()).  The resolver's clock is the real clock, not a hub timer, so
+    after the chain the harness keeps polling `done` for a generous real-time margin before it says 'blocked'."""
+    res = Result()
+    T = sub['T']
+    pattern = sub['pattern']
+    ch = _dns_channel()
+    dns_t = ch.to = DNS_T * sub.get('scale', 1)
+    domain = 'mx%d-%s.c14.test' % (sub.get('rs', 0) % 100000, pattern)
+    ds = Downstream14({}, pipelining=True)
+    if pattern == 'slow-answer':
+        import pycares
+        ch.table[(domain, pycares.QUERY_TYPE_MX)] = (dns_t / 2.0, [_MxAnswer('next-hop.c14.test')])
+    relay = MxSmtpRelay(context=tls.client_context(), socket_creator=ds.creator, connect_timeout=T, command_timeout=T,
+                        data_timeout=T, ehlo_as='relay.c14.test')
+    env = Envelope('sender@c14.test', ['rcpt@' + domain])
+    env.parse(b'Subject: c14\r\n\r\nbody\r\n')
+    out = {}
+    started = Event()
+    g = _attempt(relay, env, out, started)
+    try:
+        if pattern == 'slow-answer':
+            g.join(timeout=STEP_WATCHDOG)
+            res.detail.update({'T': T, 'resolver_timeout': dns_t, 'answer_delay': dns_t / 2.0, 'outcome': _outcome(out)})
+            if not out.get('done'):
+                res.inconc = 'watchdog: control attempt did not end'
+            res.ok = _is_success(out)
+            return res
+        started.wait(STEP_WATCHDOG)
+        gevent.sleep(0)
+        calls0 = ch.process_calls
+        chain_sleep(max(T, dns_t))
+        t0 = time.monotonic()
+        polls = 0
+        while not out.get('done') and time.monotonic() - t0 < 5.0:       # margin: real clock on the other side
+            gevent.sleep(0.01)
+            polls += 1
+        done = bool(out.get('done'))
+        res.detail.update({'T': T, 'resolver_timeout': dns_t, 'pattern': pattern, 'attempt_ended': done,
+                           'outcome': _outcome(out), 'extra_polls_after_chain': polls,
+                           'process_fd_calls_by_slimta': ch.process_calls - calls0,
+                           'harness_slept_at_least': K * max(T, dns_t)})
+        res.hits.append('mx-dns-stall-judged')
+        res.obs.append(('relay-outcome', ('mx', 'dns', pattern, None, _outcome(out)[:40])))
+        if not done:
+            res.detail['blocked_at'] = where_blocked(g)
+            res.failed.append(('still-blocked',
+                               'MxSmtpRelay.attempt still blocked %d x the resolver timeout (%gs) plus %d polls after an MX '
+                               'query that is never answered; blocked at %s'
+                               % (K, dns_t, polls, (res.detail['blocked_at'] or ['?'])[-1])))
+        elif not _is_transient(out):
+            res.failed.append(('wrong-error-class', 'attempt whose MX lookup timed out ended with "%s" instead of a '
+                               'TransientRelayError' % _outcome(out)))
+        return res
+    finally:
+        g.kill(block=False)
+        ch.pending = [e for e in ch.pending if e[2] != domain]
+        ds.kill()
+
+
+# ---------------------------------------------------------------- relay: the idle timeout itself
+
+def run_relay_idle_expiry_case(sub):
+    """idle_timeout = T: message 1 succeeds, no second message comes.  The client must send QUIT after T and -- the
+    next hop never answering it (or answering) -- be gone within the chain (idle T, then QUIT bounded by the command
+    timeout T).  HTTP: the idle connection is closed after T."""
+    res = Result()
+    T = sub['T']
+    pattern = sub['pattern']
+    if sub['side'] == 'http':
+        info = {'conns': 0, 'closed': 0}
+
+        def handler(sock, addr):
+            info['conns'] += 1
+            try:
+                buf = b''
+                while True:
+                    while b'\r\n\r\n' not in buf:
+                        d = sock.recv(65536)
+                        if not d:
+                            info['closed'] += 1
+                            return
+                        buf += d
+                    hdr, _, buf = buf.partition(b'\r\n\r\n')
+                    n = [int(l.split(b':', 1)[1]) for l in hdr.split(b'\r\n') if l.lower().startswith(b'content-length:')][0]
+                    while len(buf) < n:
+                        buf += sock.recv(65536)
+                    buf = buf[n:]
+                    sock.sendall(_HTTP_OK)
+            except (OSError, IOError, IndexError):
+                pass
+            finally:
+                sock.close()
+        srv = StreamServer(('127.0.0.1', 0), handler)
+        srv.start()
+        relay = HttpRelay('http://127.0.0.1:%d/deliver' % srv.server_port, timeout=T, idle_timeout=T,
+                          ehlo_as='relay.c14.test')
+        ds = None
+    else:
+        srv = None
+
+        def script(ctx, st):
+            return ('stall',) if (st == 'quit' and pattern == 'quit-unanswered') else ('ok',)
+        sub2 = dict(sub, idle=T, stage='none')
+        ds, relay, clients = _mk_relay(sub2, script, T)
+    if sub['side'] == 'http':
+        clients = []
+        orig_add = relay.add_client
+
+        def add_client():
+            c = orig_add()
+            clients.append(c)
+            return c
+        relay.add_client = add_client
+    out = {}
+    g = _attempt(relay, _envelope(sub), out)
+    try:
+        g.join(timeout=STEP_WATCHDOG)
+        if not _is_success(out):
+            res.inconc = 'stall-stage-not-reached: the first attempt did not succeed (%s)' % _outcome(out)
+            return res
+        # the idle timer was armed when the attempt's result was set: link 1 covers it, link 2 the QUIT
+        chain_sleep(T)
+        alive = [c for c in clients if not c.dead]
+        res.detail.update({'T': T, 'idle_timeout': T, 'pattern': pattern, 'first_outcome': _outcome(out),
+                           'client_greenlets_alive': len(alive), 'harness_slept_at_least_after_attempt_ended': K * T})
+        if ds is not None:
+            cmds = [[v for v, _ in c.commands] for c in ds.conns]
+            res.detail['commands_seen_by_next_hop'] = cmds
+        else:
+            res.detail['connections'] = info['conns']
+            res.detail['connections_closed_by_relay'] = info['closed']
+        res.hits.append('idle-expiry-judged')
+        res.obs.append(('relay-outcome', (sub.get('proto', 'http'), 'idle-expiry', pattern, sub.get('pipelining'),
+                                          'alive=%d' % len(alive))))
+        if ds is None:
+            # an idle HttpRelayClient stays in the pool (without a connection) by design: what must not outlive
+            # the idle timeout is the connection
+            if info['closed'] < info['conns']:
+                res.detail['blocked_at'] = [where_blocked(c) for c in alive]
+                res.failed.append(('idle-connection-still-open',
+                                   'idle_timeout=%gs: %d*T after the only message was delivered the HTTP connection '
+                                   'is still open' % (T, K)))
+        elif alive:
+            res.detail['blocked_at'] = [where_blocked(c) for c in alive]
+            res.failed.append(('client-greenlet-still-blocked',
+                               'idle_timeout=%gs: %d*T after the only message was delivered the idle relay client is '
+                               'still there, blocked at %s' % (T, K, (res.detail['blocked_at'][0] or ['?'])[-1])))
+        return res
+    finally:
+        g.kill(block=False)
+        for c in clients:
+            c.kill(block=False)
+        if ds is not None:
+            ds.kill()
+        if srv is not None:
+            relay.kill()
+            srv.stop(timeout=0)
+
+
 # ---------------------------------------------------------------- case generation
 
 def _key(sub):
     sec = sub.get('second')
+    T = sub.get('T_nominal', sub['T'])
     return (sub['side'], sub.get('proto'), sub['stage'], sub['pattern'], sub.get('pipelining'), sub.get('nrcpt'),
             bool(sub.get('tls')), bool(sub.get('idle')),
-            (sec['stage'], sec.get('mode')) if sec else None, sub['T'])
+            (sec['stage'], sec.get('mode')) if sec else None, bool(sub.get('split')), bool(sub.get('big')), T)
 
 
 def all_subcases(tier, seed):
@@ -1428,6 +2349,42 @@ def all_subcases(tier, seed):
                 nrcpt=1, T=T)
         for pattern in HTTP_REUSE:
             add(stall, side='http', stage='reuse', pattern=pattern, nrcpt=1, T=T)
+        # --- audit strata -------------------------------------------------------------------------------------
+        # server: a peer that does not READ (send-side stalls; real kernel buffers, small SO_SNDBUF)
+        for stage in WRITE_STAGES:
+            add(stall, side='server', stage=stage, pattern='peer-not-reading', T=T)
+        add(stall, side='server', stage='reply-write', pattern='peer-not-reading', T=T, tls=True)
+        add(stall, side='edge-tcp', stage='reply-write', pattern='peer-not-reading', T=T)
+        # PROXY protocol header in front of an SmtpEdge that never completes
+        for version in ('v1', 'v2', 'auto'):
+            for pattern in ('silent', 'partial-header', 'trickle-bytes'):
+                add(stall, side='edge-proxy', stage=version, pattern=pattern, T=T)
+        # relay: next hop stops reading the message; HELO fallback; end of an empty message; RSET after an LMTP
+        # per-recipient failure; the idle timeout itself
+        for proto in ('smtp', 'lmtp'):
+            for pl in (False, True):
+                add(stall, side='relay', proto=proto, pipelining=pl, nrcpt=1, stage='body', pattern='noread', T=T,
+                    big=300000, small_buffers=True)
+                if tier == 'thorough':
+                    add(stall, side='relay', proto=proto, pipelining=pl, nrcpt=2, stage='body', pattern='noread', T=T,
+                        big=4000000)
+                if proto == 'smtp':
+                    for pattern in ('stall', 'partial'):
+                        add(stall, side='relay', proto=proto, pipelining=pl, nrcpt=1, stage='helo', pattern=pattern, T=T)
+                    add(stall, side='relay', proto=proto, pipelining=pl, nrcpt=1 + (rnd.random() < 0.5),
+                        stage='empty-data-eod', pattern='stall', T=T)
+                else:
+                    add(stall, side='relay', proto=proto, pipelining=pl, nrcpt=2, stage='rset-after-lmtp-failure',
+                        pattern='stall', T=T)
+                for pattern in ('quit-unanswered', 'quit-answered'):
+                    add(stall, side='relay', proto=proto, pipelining=pl, nrcpt=1, stage='idle-expiry', pattern=pattern, T=T)
+        add(stall, side='http', stage='idle-expiry', pattern='connection-idle', nrcpt=1, T=T)
+        for pattern in ('request-write-noread', 'connect-syn-dropped', 'https-never-handshakes', 'https-never-answers-deaf'):
+            add(stall, side='http', stage='connect' if 'connect' in pattern else 'request' if 'request' in pattern
+                else 'response', pattern=pattern, nrcpt=1, T=T)
+        add(stall, side='edge-wsgi', stage='request-body', pattern='never-arrives', T=T)
+        # MX relay: a resolver that never answers (bounded by the resolver's own timeout DNS_T, driven by slimta)
+        add(stall, side='relay-mx', stage='dns', pattern='never-answers', nrcpt=1, T=T)
         # SMTP / LMTP connection re-use (idle_timeout set): message 1 succeeds, the next hop goes silent at a step of
         # message 2 on the same connection, or sends half a line unasked while idle (the _check_server_timeout probe)
         for proto in ('smtp', 'lmtp'):
@@ -1436,7 +2393,7 @@ def all_subcases(tier, seed):
                     for idle in (None, RELAY_IDLE):
                         add(stall, side='relay', proto=proto, pipelining=pl, nrcpt=1, stage='probe-before-mail',
                             pattern=frag, T=T, idle=idle)
-                for s2 in (('mail', 'eod0', 'idle-probe') if tier == 'quick' else ('idle-probe',)):
+                for s2 in (('mail', 'eod0', 'rset', 'idle-probe') if tier == 'quick' else ('idle-probe',)):
                     sec = {'stage': s2, 'mode': 'reuse'}
                     if s2 == 'idle-probe':
                         sec['pattern'] = 'partial'
@@ -1456,8 +2413,34 @@ def all_subcases(tier, seed):
                     for s2 in ('mail', 'rcpt0', 'data', 'eod0', 'rset', 'quit'):
                         add(stall, side='relay', proto=proto, pipelining=pl, nrcpt=1, stage='none', pattern='stall',
                             T=T, idle=RELAY_IDLE, second={'stage': s2, 'mode': 'reuse'})
+    # 'split' cases: only the timeout documented to govern the stalled step is T, the others are BIG
+    T = TS[tier][-1]
+    for stage in sorted(SERVER_STAGES):
+        pats = SERVER_STAGES[stage][2]
+        for pattern in (pats[:1] + [p for p in pats[1:] if p in ('silent-partial-body', 'trickle-bytes')][:1]):
+            add(stall, side='server', stage=stage, pattern=pattern, T=T, split=True)
+    for stage, pattern in EDGE_STAGES[:3]:
+        add(stall, side='edge', stage=stage, pattern=pattern, T=T, split=True)
+    for proto in ('smtp', 'lmtp'):
+        for pl in (False, True):
+            for stage in RELAY_STALL_STAGES:
+                add(stall, side='relay', proto=proto, pipelining=pl, nrcpt=1, stage=stage, pattern='stall', T=T,
+                    split=True)
+            add(stall, side='relay', proto=proto, pipelining=pl, nrcpt=1, stage='body', pattern='noread', T=T,
+                big=300000, small_buffers=True, split=True)
+            add(stall, side='relay', proto=proto, pipelining=pl, nrcpt=1, stage='eod0', pattern='trickle', T=T,
+                split=True)
+            add(stall, side='relay', proto=proto, pipelining=pl, nrcpt=1, stage='mail', pattern='trickle', T=T,
+                split=True)
     for T in TS_SLOW[tier]:
         add(control, side='server', stage='all-commands', pattern='slow-client', T=T)
+        add(control, side='server', stage='reply-write', pattern='slow-reader', T=T)
+        for version in ('v1', 'v2', 'auto'):
+            add(control, side='edge-proxy', stage=version, pattern='slow-header', T=T)
+        add(control, side='relay-mx', stage='dns', pattern='slow-answer', nrcpt=1, T=T)
+        for proto in ('smtp', 'lmtp'):
+            add(control, side='relay', proto=proto, pipelining=True, nrcpt=1, stage='all-stages', pattern='slow-replies',
+                T=T, slow_body=True, big=300000, small_buffers=True)
         for proto in ('smtp', 'lmtp'):
             for pl in (False, True):
                 for nr in (1, 2):
@@ -1504,18 +2487,37 @@ def mechanism(sub, clause, detail=None, label='first'):
     inner = _innermost(detail or {}, label) or ''
     if inner.startswith('smtp/io.py:close:') and clause in ('still-blocked', 'client-greenlet-still-blocked'):
         return '/'.join([side, 'close', 'tls-peer-silent', clause])
+    if side == 'http' and clause == 'client-greenlet-still-blocked':
+        cb = [b[-1] for b in (detail or {}).get('client_blocked_at', []) if b]
+        if cb and all(x.startswith('http/__init__.py:close:') for x in cb):
+            return 'http/close/tls-peer-silent/' + clause
     parts = [side, sub['stage'], sub['pattern']]
     if sub['side'] == 'relay':
         parts.append('pipelining' if sub['pipelining'] else 'no-pipelining')
+    if sub.get('split'):
+        clause += '-with-only-the-governing-timeout-set'
     return '/'.join(parts) + '/' + clause
 
 
 def is_control(sub):
-    return sub['pattern'] in ('slow-client', 'slow-replies', 'slow-ok', 'reuse-slow-ok')
+    return sub['pattern'] in ('slow-client', 'slow-replies', 'slow-ok', 'reuse-slow-ok', 'slow-reader', 'slow-header',
+                              'slow-answer')
 
 
 def run_sub(sub):
     side = sub['side']
+    if side == 'server' and sub['stage'] in WRITE_STAGES:
+        return run_server_write_case(sub)
+    if side == 'edge-tcp':
+        return run_server_write_tcp_case(sub)
+    if side == 'edge-proxy':
+        return run_proxy_case(sub)
+    if side == 'edge-wsgi':
+        return run_wsgi_observation(sub)
+    if side == 'relay-mx':
+        return run_mx_dns_case(sub)
+    if sub['stage'] == 'idle-expiry':
+        return run_relay_idle_expiry_case(sub)
     if is_control(sub):
         if side == 'server':
             return run_server_control(sub)
@@ -1547,6 +2549,10 @@ def record(sub, res, R):
     R.eval()
     R.nontrivial(_key(sub))
     R.observe('stall-point', _key(sub)[:-1])
+    if sub.get('split'):
+        R.observe('governing-timeout', (sub['side'], sub.get('proto'), sub['stage'],
+                                        tuple(relay_timeouts(sub, 'T')) if sub['side'] == 'relay' else
+                                        ('data' if sub['stage'] in DATA_GOVERNED_SERVER_STAGES else 'command')))
     for h in res.hits:
         R.hit(h)
     for kind, key in res.obs:
@@ -1568,11 +2574,44 @@ def record(sub, res, R):
         R.violation(mech, what, res.detail)
 
 
-def _run_guarded(sub, slot, i):
+def scaled(sub, scale):
+    """The same case with every duration (T, idle timeouts) multiplied by `scale`: margins are scaled, verdicts are
+    not (the chain argument does not depend on T).  Used for re-runs of cases that did not get to their stall point."""
+    if scale == 1:
+        return sub
+    s2 = dict(sub, T=sub['T'] * scale, T_nominal=sub.get('T_nominal', sub['T']), scale=scale)
+    if s2.get('idle'):
+        s2['idle'] = s2['idle'] * scale
+    return s2
+
+
+def initial_scale():
+    """1, 2 or 4 from how oversubscribed the machine is (runnable tasks per core): on a loaded machine the short
+    timeouts of the steps BEFORE a stall point would mostly expire and the batch would have to be re-run anyway.
+    Only durations are scaled; what is demanded of the code under test does not depend on T."""
+    if os.environ.get('VERIF_C14_SCALE'):
+        return int(os.environ['VERIF_C14_SCALE'])
     try:
-        slot[i] = run_sub(sub)
+        r = os.getloadavg()[0] / float(os.cpu_count() or 1)
+    except (OSError, AttributeError):
+        return 1
+    return 1 if r < 2 else 2 if r < 5 else 4
+
+
+def _run_guarded(sub, slot, i, scale=1):
+    try:
+        slot[i] = run_sub(scaled(sub, scale))
+        if scale != 1 and slot[i] is not None:
+            slot[i].detail['durations_scaled_by'] = scale
+            slot[i].counts.append(('judged-with-durations-x%d' % scale, 1))
     except gevent.GreenletExit:
         raise
+    except (OSError, IOError) as e:
+        # a harness socket call failed: the session under test had ended BEFORE its stall point (a bounded step
+        # timed out under load) -- same treatment as every other 'stall-stage-not-reached': re-run, never a verdict
+        r = Result()
+        r.inconc = 'stall-stage-not-reached: %s in a harness socket call' % type(e).__name__
+        slot[i] = r
     except Exception:
         import traceback
         r = Result()
@@ -1595,20 +2634,31 @@ def run_case(case, R):
     t0 = time.monotonic()
     # staggered start: the start-up burst of ~100 sessions must not eat the (short) timeouts of steps
     # that precede the stall point (that would only cost coverage: 'stall-stage-not-reached')
-    gs = [gevent.spawn_later(i * STAGGER, _run_guarded, s, slot, i) for i, s in enumerate(subs)]
+    scale0 = initial_scale()
+    R.count('batches-started-with-durations-x%d' % scale0)
+    gs = [gevent.spawn_later(i * STAGGER, _run_guarded, s, slot, i, scale0) for i, s in enumerate(subs)]
     gevent.joinall(gs, timeout=WATCHDOG)
     lag_batch = lagmon.max_since(t0)
     # a step BEFORE the stall point timed out (start-up burst / machine load): no verdict possible; give those
     # cases one more, much less crowded, run before reporting them inconclusive
-    again = [i for i, r in enumerate(slot) if r is not None and r.inconc and r.inconc.startswith('stall-stage-not-reached')
-             and not is_control(subs[i])]
-    if again:
+    # (up to RERUNS rounds; from the second round on one case at a time: nothing else competes for the hub then)
+    for rnd_no in range(RERUNS):
+        again = [i for i, r in enumerate(slot) if r is not None and r.inconc
+                 and r.inconc.startswith('stall-stage-not-reached')]
+        if not again:
+            break
         R.count('rerun-after-stall-stage-not-reached', len(again))
         for i in again:
             R.count('rerun/%s/%s' % (subs[i]['side'], subs[i]['stage']))
             slot[i] = None
-        gs2 = [(i, gevent.spawn_later(n * 10 * STAGGER, _run_guarded, subs[i], slot, i)) for n, i in enumerate(again)]
-        gevent.joinall([g for _, g in gs2], timeout=WATCHDOG)
+        scale = scale0 * 2 ** (rnd_no + 1)     # x2, x4, x8, x16: margins scaled, verdicts not
+        group = (len(again), 24, 8, 1)[min(rnd_no, 3)]          # ... and ever less crowded
+        gs2 = []
+        for k in range(0, len(again), group):
+            part = [(i, gevent.spawn_later(n * 10 * STAGGER, _run_guarded, subs[i], slot, i, scale))
+                    for n, i in enumerate(again[k:k + group])]
+            gevent.joinall([g for _, g in part], timeout=WATCHDOG)
+            gs2.extend(part)
         for i, g in gs2:
             gs[i] = g
     R.count('batches')
@@ -1637,7 +2687,7 @@ def run_case(case, R):
         while len(runs) < 3 and not getattr(runs[-1][0], 'ok', False):
             t1 = time.monotonic()
             s2 = [None]
-            g = gevent.spawn(_run_guarded, sub, s2, 0)
+            g = gevent.spawn(_run_guarded, sub, s2, 0, scale0 * 2 ** len(runs))      # alone, and with durations x2, x4
             g.join(timeout=WATCHDOG)
             g.kill(block=False)
             if s2[0] is None or s2[0].inconc:
@@ -1645,7 +2695,7 @@ def run_case(case, R):
             runs.append((s2[0], lagmon.max_since(t1)))
         last, _ = runs[-1]
         thr = sub['T'] / 16.0
-        genuine = [(r, l) for r, l in runs if not getattr(r, 'ok', False) and l < thr]
+        genuine = [(r, l) for r, l in runs if not getattr(r, 'ok', False) and l < thr * r.detail.get('durations_scaled_by', 1)]
         last.detail['control_runs'] = [{'ok': bool(getattr(r, 'ok', False)), 'max_hub_lag': l,
                                         'outcome': r.detail.get('outcome', r.detail.get('reply_codes'))}
                                        for r, l in runs]
